@@ -16,6 +16,7 @@ import (
 	"sync/atomic"
 
 	gcodecs "github.com/jech/galene/codecs"
+	"github.com/jech/galene/packetcache"
 
 	"verif/harness/vdown"
 	"verif/harness/vk"
@@ -111,6 +112,10 @@ func runHistory(run *vk.Run, idx uint64) {
 	cfg := &vdown.StreamCfg{Codec: codec, StartSeq: uint16(r.UintN(65536)), StartTS: uint32(r.Uint64()),
 		CSRCs: []int{0, 0, 1, 3}[r.IntN(4)], MaxPktsPerFrame: 1 + r.IntN(5), MaxFill: []int{0, 30, 1100}[r.IntN(3)],
 		Pictures: 80 + r.IntN(200), UpSyncProb: 0.6, KeyEvery: []int{0, 15, 40}[r.IntN(3)]}
+	if idx%3 == 1 {
+		// packets as large as the server's packet buffers (packetcache.BufSize)
+		cfg.MaxTotal = packetcache.BufSize
+	}
 	pat := 1 + r.IntN(3)
 	cfg.TPattern = vdown.TemporalPatterns[pat]
 	if r.IntN(6) == 0 {
@@ -224,6 +229,9 @@ func runHistory(run *vk.Run, idx uint64) {
 		}
 		st.fwd++
 		out := outs[0]
+		if len(p.Bytes) > 1500 {
+			run.Count("forwarded_packets_larger_than_1500_bytes", 1)
+		}
 		if len(out.Raw) != len(p.Bytes) {
 			fail("length-changed", fmt.Sprintf("%v: length %d -> %d", p, len(p.Bytes), len(out.Raw)))
 			return
@@ -393,6 +401,7 @@ func main() {
 	run.FloorCounter("vp8_frames_checked_after_a_withheld_frame", 1000)
 	run.FloorCounter("markers_set_on_spatial_layer_end", 20)
 	run.FloorCounter("histories_with_pid_wrap_after_drop", 5)
+	run.FloorCounter("forwarded_packets_larger_than_1500_bytes", 100)
 	run.FloorCounter("rewrite_calls_compared", 10000)
 	run.Assume("in-order arrival (the property's scope for picture ids); session-level fields SSRC and payload type are compared against the binding's values")
 	run.Assume("verif export shim of rtpconn + capturing write stream bound to the real TrackLocalStaticRTP; pion depacketisers as independent parsers")
